@@ -103,7 +103,7 @@ PROPS = {
         trust=["http.ResponseWriter contract modelled (Model/Http.v), net/http itself not verified"]),
     "C09": rt(350, 6000, ["serve-user", "serve-405", "serve-options"],
         "programs interleaving Use, Prefix/Resource creation (nesting <= 4) and Handle with per-route middlewares; every handler kind probed; the full wrapped handler term is compared",
-        props=["C09table"],
+        props=["C09table"], extra_runs=[("C13", "C09g", 0.5)],
         level_text="C09_table_is_rendered_records: for every history of Handle/Remove/Clean/Use the stored handler of every (pattern, method) is the registration's core wrapped by the registration's middlewares (call's own, then facade's) and then by ALL Router.Use middlewares in order - whatever the interleaving; C09_apply_mw_nesting: later list elements are outer, every layer carries (method, pattern, router); C09_auto_handlers_keep_first_registration.",
         level_note="proved on the abstract table machine; the tree stores exactly these terms (compared structurally on every probe).",
         trust=["middleware factories are symbolic (HWrap terms); the harness's factories record their arguments"]),
